@@ -52,6 +52,10 @@ type Thread struct {
 	// functions).
 	goFunctionCallDepth int
 
+	// Depth of calls made from Go into the thread (see Thread.call), limited in
+	// the same way and for the same reason.
+	nestedCallDepth int
+
 	DebugHooks
 
 	closeStack // Stack of pending to-be-closed values
@@ -334,6 +338,14 @@ func (t *Thread) closePendingProtected(err error) (closeErr error, exception int
 }
 
 func (t *Thread) call(c Callable, args []Value, next Cont) error {
+	// Each call made from Go (metamethods, iterators, callbacks of library
+	// functions) runs in a nested loop on the Go stack: limit the nesting, as
+	// for Go function calls, to avoid irrecoverable Go stack overflows.
+	t.nestedCallDepth++
+	defer func() { t.nestedCallDepth-- }()
+	if t.nestedCallDepth > maxGoFunctionCallDepth {
+		return errors.New("stack overflow")
+	}
 	cont := c.Continuation(t, next)
 	t.Push(cont, args...)
 	return t.RunContinuation(cont)
